@@ -144,6 +144,14 @@ def thread_scenarios(tier):
             prep=[sb('outer', [bf('d/a', ch=[bf('d/b')])])],
             threads=[[sb('outer', [bf('d/a', ch=[bf('d/b')])])], [bf('d/b', tag='other function')]]),
     }
+    # the racing calls are made inside a subbuild, so a rejected call becomes part of a written record
+    S['T10_rejected_reuse_inside_a_parent_record'] = dict(
+        prep=[sb('outer', [bf('d/a', ch=[bf('d/b')])])],
+        threads=[[dict(sb('parent', args=(9,)), par=[[sb('outer', [bf('d/a', ch=[bf('d/b')])])],
+                                                    [bf('d/b', tag='other function')]])]])
+    S['T11_duplicate_subbuild_inside_a_parent_record'] = dict(
+        prep=[sb('outer', [sb('s')])],
+        threads=[[dict(sb('parent', args=(9,)), par=[[sb('outer', [sb('s')])], [sb('s')]])]])
     if tier != 'quick':
         S['T9_three_threads_same_subbuild'] = dict(threads=[[sb('s')], [sb('s')], [sb('s')]])
     return S
@@ -164,6 +172,8 @@ def acceptable(o, seqs):
     res = list(first.get('ops', {}).values())
     if any(r[0] == 'exc' and r[1] not in ('RuntimeError',) for r in res):
         return False
+    if o.get('cache_duplicates'):
+        return False        # a key is recorded twice in the committed cache file (also below a rejected record)
     if not any(r[0] == 'ok' for r in res):
         return False
     inv = first.get('inv', [])
